@@ -120,6 +120,7 @@ type RunResult struct {
 	Samples     []map[string]interface{} `json:"samples"`
 	AssumeFails map[string]int           `json:"assume_infeasible,omitempty"`
 	Error       string                   `json:"error,omitempty"`
+	Degraded    []string                 `json:"oracle_degraded,omitempty"`
 	sampleCex   []*CexFile
 }
 
